@@ -240,7 +240,7 @@ def build_phot(case, fitter):
     from photutils.psf import PSFPhotometry, SourceGrouper
     psf = make_psf(case['psf'])
     grouper = None
-    if case['grouping']['kind'] == 'sep':
+    if case['grouping'].get('t') is not None:     # kind 'sep', or kind 'user' with a grouper ALSO configured
         grouper = SourceGrouper(case['grouping']['t'])
     lb = None
     if case.get('localbkg'):
@@ -694,12 +694,48 @@ def gen_positions(rng, n, ny, nx, fy, fx, kind):
     return xs, ys
 
 
+def supplied_vs_linkage(rng, xs, ys, t, allow_split=True):
+    """A group_id column that DIFFERS from what SourceGrouper(t) returns: the single-linkage partition with a close
+    pair split / two distant clusters merged / the same partition under permuted labels / an unrelated partition.
+    Returns (gids, how)."""
+    base = clusters_single_linkage(xs, ys, t)
+    n = len(base)
+    k = max(base)
+    how = rng.choice(['split', 'merge', 'permute', 'random'] if allow_split else ['merge', 'permute', 'permute'])
+    g = list(base)
+    if how == 'split':
+        big = [c for c in set(base) if base.count(c) >= 2]
+        if big:
+            c = rng.choice(big)
+            members = [i for i in range(n) if base[i] == c]
+            for i in rng.sample(members, rng.randint(1, len(members) - 1)):
+                g[i] = k + 1
+        else:
+            how = 'merge'
+    if how == 'merge':
+        if k >= 2:
+            a, b = rng.sample(range(1, k + 1), 2)
+            g = [a if v == b else v for v in g]
+        else:
+            how = 'permute'
+    if how == 'random':
+        labels = rng.sample(range(1, 40), rng.randint(1, n))
+        g = [rng.choice(labels) for _ in range(n)]
+    # labels: a fresh injective relabelling that is never the grouper's own first-appearance numbering
+    for _ in range(20):
+        labs = rng.sample(range(1, 60), max(g) if how != 'random' else 0) if how != 'random' else None
+        out = g if labs is None else [labs[v - 1] for v in g]
+        if out != base:
+            return out, how
+    return [v + 100 for v in base], 'permute'
+
+
 def gen_script_case(rng):
     ny, nx = rng.randint(4, 13), rng.randint(4, 13)
     fy, fx = rng.choice([1, 3, 3, 5, 5, 7]), rng.choice([1, 3, 3, 5, 5, 7])
     n = rng.choice([1, 1, 2, 2, 3, 3, 4, 5, 6, 7, 8])
-    gk = rng.choice(['id', 'user', 'user', 'sep', 'sep', 'sep'])
-    xs, ys = gen_positions(rng, n, ny, nx, fy, fx, 'cluster' if gk == 'sep' else 'any')
+    gk = rng.choice(['id', 'user', 'user', 'sep', 'sep', 'sep', 'user+grouper', 'user+grouper'])
+    xs, ys = gen_positions(rng, n, ny, nx, fy, fx, 'cluster' if gk in ('sep', 'user+grouper') else 'any')
     klass = ['interior']
     # occasionally one source fully off the image (error case) or exactly at the limit
     if rng.random() < 0.06:
@@ -714,6 +750,12 @@ def gen_script_case(rng):
         labels = rng.sample(range(1, 40), ng)
         gids = [rng.choice(labels) for _ in range(n)]
         grouping = {'kind': 'user', 'gids': gids}
+    elif gk == 'user+grouper':
+        # the object is built WITH a grouper and init_params carries a group_id column that disagrees with it:
+        # the column wins (the grouper is ignored for that call)
+        t = rng.choice([1.0, 1.5, 2.0, 2.5, 3.0, 5.0, 0.5])
+        gids, how = supplied_vs_linkage(rng, xs, ys, t)
+        grouping = {'kind': 'user', 'gids': gids, 't': t, 'how': how}
     else:
         grouping = {'kind': 'sep', 't': rng.choice([1.0, 1.5, 2.0, 2.5, 3.0, 5.0, 0.5])}
     ids = None
@@ -848,10 +890,15 @@ def gen_real_case(rng, big=False):
     yi = [round((v + rng.uniform(-0.45, 0.45)) * 8) / 8 for v in ys]
     if 'fix' in spec:              # a fixed parameter must start at the truth (dyadic) to be recoverable
         pass
-    gk = rng.choice(['user', 'sep', 'sep'])
+    gk = rng.choice(['user', 'sep', 'sep', 'user+grouper'])
     if gk == 'user':
         labels = rng.sample(range(1, 30), gy_ * gx_)
         grouping = {'kind': 'user', 'gids': [labels[g - 1] for g in grp_truth]}
+    elif gk == 'user+grouper':
+        # grouper configured AND a group_id column that differs from its result (permuted labels, or two
+        # distant clusters merged into one compound fit; never a split, which would spoil the recovery oracle)
+        gids, how = supplied_vs_linkage(rng, xi, yi, 11.0, allow_split=False)
+        grouping = {'kind': 'user', 'gids': gids, 't': 11.0, 'how': how}
     else:
         grouping = {'kind': 'sep', 't': 11.0}   # members <= 8.5 apart (chain), groups >= cell - 6 apart
     mask = None
@@ -923,7 +970,9 @@ def run(ctx):
     ctx.cov['rule'] = (
         'script mode: random small images (4..13 px), fit shapes 1..7, 1..8 sources at interior / edge-straddling / '
         'half-integer / integer / off-image positions, grouping none | user group_id (interleaved, gaps) | '
-        'SourceGrouper (clustered positions incl. exact ties d == min_separation), optional permuted id column, '
+        'SourceGrouper (clustered positions incl. exact ties d == min_separation) | grouper configured AND a group_id '
+        'column that disagrees with it (close pair split, distant clusters merged, permuted labels, unrelated partition: '
+        'the column must win), optional permuted id column, '
         'NaN/inf pixels, masks (random, empty, central pixel, whole window, rows/cols), error maps (dyadic, zeros/NaN/inf), '
         'local_bkg column, xy_bounds variants, fixed/free parameter sets, 5 fit_info layouts; the fitter returns scripted '
         'dyadic values (at bounds, outside the image, flux <= 0, non-converged codes, missing covariance). '
@@ -964,7 +1013,10 @@ def run(ctx):
         ctx.stat('mode', mode)
         ctx.stat('outcome', {0: 'table', 1: 'no-overlap error', 2: 'completely-masked error',
                              3: 'non-finite-weights error'}.get(res['code'], 'other exception'))
-        ctx.stat('grouping', case['grouping']['kind'])
+        gkind = case['grouping']['kind']
+        if gkind == 'user' and case['grouping'].get('t') is not None:
+            gkind = 'user group_id column + grouper configured (' + case['grouping'].get('how', '?') + ')'
+        ctx.stat('grouping', gkind)
         ctx.stat('nsources', str(len(case['x'])))
         if res['table'] is not None:
             gs = [int(v) for v in res['table']['group_size']]
